@@ -375,6 +375,14 @@ type MapEntry struct {
 type MapState struct {
 	E     []MapEntry
 	Count *T
+	// Base: initial contents given intensionally (vrt.MapFillRange): every key k with Lo <= k < Hi and k != Except is
+	// present with value Val. Lets a harness start from a map with tens of thousands of entries at no cost per entry.
+	Base *MapBase
+}
+
+type MapBase struct {
+	Lo, Hi, Except *T
+	Val            Value
 }
 
 func (ex *Exec) makeMap(t types.Type) *MapV {
@@ -395,6 +403,10 @@ func (ex *Exec) mapFind(st MapState, k *T, zero Value) (Value, *T) {
 	C := ex.C
 	val := zero
 	pres := C.False
+	if b := st.Base; b != nil {
+		pres = C.BAnd(C.BAnd(C.Sle(b.Lo, k), C.Slt(k, b.Hi)), C.BNot(C.Eq(k, b.Except)))
+		val = ex.iteValue(pres, b.Val, zero)
+	}
 	for _, e := range st.E { // oldest first; newer entries override
 		hit := C.BAnd(e.Guard, C.Eq(e.Key, k))
 		if hit.IsConst() && hit.Val == 0 {
@@ -431,7 +443,7 @@ func (ex *Exec) mapUpdate(m *MapV, key, val Value, site string, _ func(*MapV)) {
 	st := m.St.V.(MapState)
 	k := key.(*T)
 	_, was := ex.mapFind(st, k, ex.zero(m.Elem))
-	ns := MapState{E: append(append([]MapEntry{}, st.E...), MapEntry{Guard: C.True, Key: k, Pres: C.True, Val: val})}
+	ns := MapState{Base: st.Base, E: append(append([]MapEntry{}, st.E...), MapEntry{Guard: C.True, Key: k, Pres: C.True, Val: val})}
 	if st.Count != nil {
 		ns.Count = C.Ite(was, st.Count, C.Add(st.Count, ex.k64(1)))
 	}
@@ -446,7 +458,7 @@ func (ex *Exec) mapDelete(m *MapV, key Value) {
 	st := m.St.V.(MapState)
 	k := key.(*T)
 	_, was := ex.mapFind(st, k, ex.zero(m.Elem))
-	ns := MapState{E: append(append([]MapEntry{}, st.E...), MapEntry{Guard: C.True, Key: k, Pres: C.False, Val: ex.zero(m.Elem)})}
+	ns := MapState{Base: st.Base, E: append(append([]MapEntry{}, st.E...), MapEntry{Guard: C.True, Key: k, Pres: C.False, Val: ex.zero(m.Elem)})}
 	if st.Count != nil {
 		ns.Count = C.Ite(was, C.Sub(st.Count, ex.k64(1)), st.Count)
 	}
@@ -470,7 +482,10 @@ func (ex *Exec) mergeMapStates(c *T, a, b MapState) MapState {
 		e.Guard = C.BAnd(e.Guard, nc)
 		out = append(out, e)
 	}
-	m := MapState{E: out}
+	if a.Base != b.Base {
+		panic(unsupported("merge of maps with different intensional bases"))
+	}
+	m := MapState{E: out, Base: a.Base}
 	if a.Count != nil && b.Count != nil {
 		m.Count = C.Ite(c, a.Count, b.Count)
 	}
